@@ -166,8 +166,21 @@ def gen_case(rng, family='any'):
         pass
     case = dict(start=start, end=end, burn=burn, rebalance=reb, weekday=rng.choice(['MON', 'TUE', 'WED', 'THU', 'FRI']),
                 long_only=lo, param=(rng.choice([0.0, 0.05, 0.3]) if lo else rng.choice([0.5, 1.0, 2.0])),
-                fee=gen_fee(rng), cash=(rng.choice([1e8, 1e9]) if family == 'fixed' and locals().get('near_unit') else rng.choice([1e5, 1e6, 250000.0])), universe=uni, alpha=alpha, signals=signals,
+                fee=gen_fee(rng), cash=(rng.choice([1e8, 1e9]) if family == 'fixed' and locals().get('near_unit') else rng.choice([1e5, 1e6, 250000.0, 250000.0, 2000.0, 5000.0])), universe=uni, alpha=alpha, signals=signals,
                 adjust=rng.random() < 0.7, market=market, family=family)
+    if family == 'fixed' and case['long_only'] and len(assets) >= 2 and 'fixed' in alpha and rng.random() < 0.15:
+        # a small account in which one asset's allocation is worth just over one share: its target wanders between 1 and 0
+        # while it is held (daily rebalancing, no late listing for that asset)
+        a_b, a_a = assets[-1], assets[0]
+        rows = [r for r in market[syms[-1]] if r[1] is not None and r[2] is not None]
+        if rows:
+            case['cash'] = rng.choice([2000.0, 5000.0, 20000.0])
+            case['rebalance'] = 'daily'
+            case['fee'] = ['Z']
+            case['burn'] = None
+            p0 = rows[min(len(rows) - 1, 10)][1]
+            wb = min(0.9, rng.choice([1.01, 1.03, 1.1]) * p0 / ((1.0 - case['param']) * case['cash']))
+            case['alpha'] = {'fixed': [[a_a, 1.0 - wb], [a_b, wb]]}
     if reb != 'buy_and_hold' and rng.random() < 0.08:
         case['start_us'] = rng.choice([1, 250000, 999999])      # a start carrying microseconds: the session is that of the whole second
     if spikes:
